@@ -273,7 +273,13 @@ pub fn gen_qp(t: &mut Tape, code: usize, ctx: &mut Ctx) -> Qp {
             if seen.insert(i) {
                 // names are arbitrary tokens; some contain fragments that look like (Fortran) number syntax
                 let k = t.choice(9);
-                let nm = match t.choice(14) {
+                let nm = match t.choice(16) {
+                    // the names other writers give by default: x<k> with the variable's own 1-based (or 0-based) position
+                    14 => {
+                        ctx.label("name-is-x-plus-own-position");
+                        format!("x{}", i + 1)
+                    }
+                    15 => format!("x{i}"),
                     // names containing the characters that start a remark elsewhere (a name is read as written)
                     11 => format!("x#{i}"),
                     12 => format!("flow!{i}a"),
